@@ -327,6 +327,17 @@ class _Run:
                 reads = {x.id for x in ast.walk(n.value) if isinstance(x, ast.Name)}
                 if name in reads and name not in {x.id for x in ast.walk(loop.target) if isinstance(x, ast.Name)}:
                     self.report(n, "loop-carried dependency `%s` in a loop over an arbitrarily ordered collection" % " ".join(u(n).split())[:80], taint)
+            if isinstance(n, ast.Assign) and len(n.targets) == 1 and isinstance(n.targets[0], ast.Subscript) and taint.cls != "int":
+                # entries created in a mapping that outlives the function, one per element, in the order of the iteration: the mapping's own
+                # order (what a later walk over it sees and writes) is then the arbitrary one
+                base = n.targets[0].value
+                root = base
+                while isinstance(root, (ast.Attribute, ast.Subscript)):
+                    root = root.value
+                tv = {x.id for x in ast.walk(loop.target) if isinstance(x, ast.Name)}
+                local = isinstance(base, ast.Name) and self.initial_binding(base.id) is not None
+                if not local and tv & {x.id for x in ast.walk(n.targets[0].slice) if isinstance(x, ast.Name)} and isinstance(root, ast.Name):
+                    self.report(n, "escape: `%s` creates the entries of a shared mapping in the order of an arbitrarily ordered collection" % " ".join(u(n).split())[:70], taint)
             if isinstance(n, ast.AugAssign) and isinstance(n.target, ast.Name) and isinstance(n.op, ast.Add):
                 # string / list accumulation is order sensitive; numeric accumulation is not: decide by the initial binding
                 init = self.initial_binding(n.target.id)
